@@ -2,6 +2,7 @@ package bcl
 
 import (
 	"bufio"
+	"bytes"
 	stdbinary "encoding/binary"
 	"fmt"
 	"io"
@@ -35,6 +36,21 @@ func uvarintFromBuf(r *bufio.Reader) (uint64, error) {
 	x, n := uvarintFromBytes(p)
 	_, err = r.Discard(n)
 	return x, err
+}
+
+// bytesFromBuf reads exactly n bytes.
+// Unlike Peek, it is not limited by the size of the reader's buffer,
+// and it reports the input ending too early.
+func bytesFromBuf(r *bufio.Reader, n uint64) ([]byte, error) {
+	if n > math.MaxInt64 {
+		return nil, fmt.Errorf("size %d too big", n)
+	}
+	var b bytes.Buffer
+	_, err := io.CopyN(&b, r, int64(n))
+	if err == io.EOF {
+		err = io.ErrUnexpectedEOF
+	}
+	return b.Bytes(), err
 }
 
 func varintToBytes(p []byte, x int64) int {
@@ -149,8 +165,7 @@ func valueFromBuf(r *bufio.Reader) (value, error) {
 		p, _ := r.Peek(9)
 		k, i := uvarintFromBytes(p)
 		r.Discard(i)
-		p, _ = r.Peek(int(k))
-		_, err = r.Discard(len(p))
+		p, err = bytesFromBuf(r, k)
 		return string(p), err
 
 	case typeBOOL:
